@@ -46,6 +46,11 @@ func (g *Gen) prelude() string {
 	if g.mode == ModeBV {
 		modeName = "bv"
 	}
+	if g.nativeStr {
+		// the raw SMT lines of the contract files are quantified axioms over the uninterpreted string sort; a lemma over
+		// native strings does not use them, and with them no solver would answer sat
+		return sb.String()
+	}
 	for _, l := range g.E.contracts.SMT["any"] {
 		sb.WriteString(l + "\n")
 	}
